@@ -668,7 +668,22 @@ def RV(n, st, cx):
             if inner.get("kind") == "CompoundLiteralExpr":
                 return RV(inner, st, cx)
             return read(LV(inner, st, cx), n, st, cx)
-        if ck in ("NoOp", "BitCast", "FunctionToPointerDecay"):
+        if ck == "BitCast":
+            # AUDIT2: `*(uint32_t*)&metadata->end_ptr` reads part of the field; a cast between pointers to integers of different
+            # widths is not transparent (casts between struct pointers - the arms of the metadata union - still are)
+            def _pointee_bits(x):
+                t = unconst(desugared(x))
+                if not t.endswith("*"):
+                    return None
+                try:
+                    return int_width(t[:-1].strip(), cx)[0]
+                except Unsupported:
+                    return None
+            pa, pb = _pointee_bits(n), _pointee_bits(inner)
+            if pa is not None and pb is not None and pa != pb:
+                raise Unsupported("pointer cast between integer types of different widths")
+            return RV(inner, st, cx)
+        if ck in ("NoOp", "FunctionToPointerDecay"):
             return RV(inner, st, cx)
         if ck == "NullToPointer":
             return ("ptr", NULL, ())
@@ -681,7 +696,17 @@ def RV(n, st, cx):
             if v[0] != "int":
                 raise Unsupported("integral cast of a non-integer")
             if signed:
-                return v
+                # AUDIT2: a conversion to a NARROWER signed type (or from an unsigned type of the same width) is not the
+                # identity: `(int)(index - end_ptr) == 0` holds for every index congruent to end_ptr modulo 2^32
+                try:
+                    ws, ss = int_width(qual(inner) if unconst(qual(inner)) in UNSIGNED or unconst(qual(inner)) in SIGNED else desugared(inner), cx)
+                except Unsupported:
+                    ws, ss = 64, False
+                lit0 = cast.strip(inner)
+                small = lit0.get("kind") == "IntegerLiteral" and 0 <= int(lit0["value"]) < (1 << (w - 1))
+                if ws < w or (ss and ws <= w) or small or (lit0.get("kind") == "DeclRefExpr" and lit0.get("referencedDecl", {}).get("kind") == "EnumConstantDecl"):
+                    return v
+                return ("int", "(swrapz %d %s)" % (w, v[1]))
             lit = cast.strip(inner)
             if lit.get("kind") == "IntegerLiteral" and 0 <= int(lit["value"]) < (1 << w):
                 return v
@@ -934,6 +959,15 @@ def call(n, st, cx):
         st.reqs.append("ReqFree %s" % tok_text(v[1]))
         return ("void",)
     ordered = cx.spec.get("ordered_decref")
+    if name == "cbor_intermediate_decref":
+        # AUDIT2: summarised BY NAME as one release of its argument, and not a listed function with a plan of its own:
+        # its current body must be exactly `cbor_decref(&item);`
+        fn_ = cx.function(name)
+        body_ = [x for x in (fn_[1].get("inner", []) if fn_ else []) if x.get("kind") not in ("NullStmt",)]
+        pn_ = [p_.get("name") for p_ in (fn_[0].get("inner", []) if fn_ else []) if p_.get("kind") == "ParmVarDecl"]
+        if not (fn_ and len(pn_) == 1 and len(body_) == 1
+                and cast.expr(body_[0]) == ("call", ("var", "cbor_decref"), [("un", "&", ("var", pn_[0]))])):
+            raise Unsupported("cbor_intermediate_decref is not `cbor_decref(&item)` any more")
     if name in REFCOUNT and name != cx.spec["name"] and not (ordered and name == "cbor_intermediate_decref"):
         v = RV(args[0], st, cx)
         if v[0] != "ptr" or v[2] != ():
@@ -1117,6 +1151,9 @@ def decl_stmt(s, st, cx):
                 else:
                     raise Unsupported("initialiser of a struct local")
             continue
+        if d.get("storageClass") == "static" and tok is None:
+            # AUDIT2: a static scalar keeps its value between calls; it was rendered as a local re-initialised on every call
+            raise Unsupported("static local " + str(d.get("name")))
         if not init:
             st.env[d.get("id")] = ("uninit",)
             continue
@@ -1152,6 +1189,8 @@ def switch_groups(body, st, cx):
             labels = []
             while x.get("kind") in ("CaseStmt", "DefaultStmt"):
                 if x["kind"] == "CaseStmt":
+                    if len(x.get("inner", [])) != 2:
+                        raise Unsupported("case range")      # AUDIT2: `case lo ... hi:` (only lo was read)
                     v = RV(x["inner"][0], st, cx)
                     if v[0] != "int":
                         raise Unsupported("case label")
@@ -1185,21 +1224,33 @@ def inlinable_with_control(name, cx):
         return None
     return fn
 
+def strip_noconv(n):
+    """AUDIT2: cast.strip, but a value-changing conversion at the call site (`return (uint8_t)helper(..);`, an implicit narrowing
+    or int -> bool conversion of the helper's result) is kept: the node returned is then not a CallExpr and the helper is not inlined"""
+    while n.get("kind") in cast.TRANSPARENT and n.get("inner"):
+        if n.get("kind") in ("ImplicitCastExpr", "CStyleCastExpr") and n.get("castKind") not in ("LValueToRValue", "NoOp", "BitCast", "FunctionToPointerDecay"):
+            inner = n["inner"][-1]
+            to, frm = unconst(desugared(n)), unconst(desugared(inner))
+            if to != frm:
+                return n
+        n = n["inner"][-1]
+    return n
+
 def cps_inline(s, rest, st, cx):
     """`return f(..);`, `T x = f(..);`, `x = f(..);`, `f(..);` with f a branching helper"""
     k = s.get("kind")
     target, callnode = None, None
     if k == "ReturnStmt" and s.get("inner"):
-        callnode, target = cast.strip(s["inner"][0]), ("return",)
+        callnode, target = strip_noconv(s["inner"][0]), ("return",)
     elif k == "DeclStmt" and len(s.get("inner", [])) == 1 and s["inner"][0].get("kind") == "VarDecl":
         d = s["inner"][0]
         init = [x for x in d.get("inner", []) if x.get("kind") not in ("FullComment",) and not x.get("kind", "").endswith("Attr")]
         if init:
-            callnode, target = cast.strip(init[-1]), ("var", d.get("id"), d.get("name"))
+            callnode, target = strip_noconv(init[-1]), ("var", d.get("id"), d.get("name"))
     elif k == "BinaryOperator" and s.get("opcode") == "=":
         l = cast.strip(s["inner"][0])
         if l.get("kind") == "DeclRefExpr" and l["referencedDecl"].get("id") in st.env and st.env[l["referencedDecl"]["id"]][0] != "objv":
-            callnode, target = cast.strip(s["inner"][1]), ("var", l["referencedDecl"]["id"], l["referencedDecl"].get("name"))
+            callnode, target = strip_noconv(s["inner"][1]), ("var", l["referencedDecl"]["id"], l["referencedDecl"].get("name"))
     elif k == "CallExpr":
         callnode, target = s, ("drop",)
     if callnode is None or callnode.get("kind") != "CallExpr":
@@ -1370,6 +1421,13 @@ def S(stmts, st, cx):
     RV(s, st, cx)
     return flush(st) + S(rest, st, cx)
 
+def bare_ref(n):
+    """AUDIT2: the variable an expression IS (through parentheses and lvalue-to-rvalue only).  cast.strip also drops value-changing
+    casts: `(uint8_t)i < size` passed as the loop test `i < size` of the NULL-fill loop"""
+    while n.get("kind") == "ParenExpr" or (n.get("kind") == "ImplicitCastExpr" and n.get("castKind") in ("LValueToRValue", "NoOp")):
+        n = n["inner"][-1]
+    return n
+
 def is_fill_loop(s):
     """syntactic shape of `for (T i = 0; i < n; i++) p[i] = NULL;`"""
     inner = s.get("inner", [])
@@ -1381,18 +1439,18 @@ def is_fill_loop(s):
         ivar = d["id"]
         zero = cast.expr([x for x in d["inner"] if x.get("kind") != "FullComment"][-1])
         c = cast.strip(cond)
-        ci = cast.strip(c["inner"][0])
+        ci = bare_ref(c["inner"][0])        # AUDIT2
         i2 = cast.strip(inc)
         stmts = body.get("inner", []) if body.get("kind") == "CompoundStmt" else [body]
         stmts = [x for x in stmts if x.get("kind") != "NullStmt"]
         if not (init.get("kind") == "DeclStmt" and zero == ("int", 0) and c.get("kind") == "BinaryOperator" and c.get("opcode") == "<"
                 and ci.get("kind") == "DeclRefExpr" and ci["referencedDecl"]["id"] == ivar
-                and i2.get("kind") == "UnaryOperator" and i2.get("opcode") == "++" and cast.strip(i2["inner"][0])["referencedDecl"]["id"] == ivar
+                and i2.get("kind") == "UnaryOperator" and i2.get("opcode") == "++" and bare_ref(i2["inner"][0])["referencedDecl"]["id"] == ivar
                 and len(stmts) == 1 and stmts[0].get("kind") == "BinaryOperator" and stmts[0].get("opcode") == "="):
             return False
         lhs, rhs = stmts[0]["inner"]
         l = cast.strip(lhs)
-        if l.get("kind") != "ArraySubscriptExpr" or cast.strip(l["inner"][1]).get("referencedDecl", {}).get("id") != ivar:
+        if l.get("kind") != "ArraySubscriptExpr" or bare_ref(l["inner"][1]).get("referencedDecl", {}).get("id") != ivar:
             return False
         return cast.strip(rhs).get("kind") == "IntegerLiteral" or has_kind(rhs, ("IntegerLiteral",)) and not has_kind(rhs, ("CallExpr", "DeclRefExpr"))
     except (KeyError, IndexError, TypeError):
@@ -1409,19 +1467,19 @@ def fill_loop(s, st, cx):
         ivar = d["id"]
         zero = cast.expr([x for x in d["inner"] if x.get("kind") != "FullComment"][-1])
         c = cast.strip(cond)
-        ci = cast.strip(c["inner"][0])
+        ci = bare_ref(c["inner"][0])        # AUDIT2
         i2 = cast.strip(inc)
         stmts = body.get("inner", []) if body.get("kind") == "CompoundStmt" else [body]
         stmts = [x for x in stmts if x.get("kind") != "NullStmt"]
         ok = (init.get("kind") == "DeclStmt" and zero == ("int", 0) and c.get("kind") == "BinaryOperator" and c.get("opcode") == "<"
               and ci.get("kind") == "DeclRefExpr" and ci["referencedDecl"]["id"] == ivar
-              and i2.get("kind") == "UnaryOperator" and i2.get("opcode") == "++" and cast.strip(i2["inner"][0])["referencedDecl"]["id"] == ivar
+              and i2.get("kind") == "UnaryOperator" and i2.get("opcode") == "++" and bare_ref(i2["inner"][0])["referencedDecl"]["id"] == ivar
               and len(stmts) == 1 and stmts[0].get("kind") == "BinaryOperator" and stmts[0].get("opcode") == "=")
         if not ok:
             raise Unsupported("for loop")
         lhs, rhs = stmts[0]["inner"]
         l = cast.strip(lhs)
-        if l.get("kind") != "ArraySubscriptExpr" or cast.strip(l["inner"][1]).get("referencedDecl", {}).get("id") != ivar:
+        if l.get("kind") != "ArraySubscriptExpr" or bare_ref(l["inner"][1]).get("referencedDecl", {}).get("id") != ivar:
             raise Unsupported("for loop")
     except (KeyError, IndexError, TypeError):
         raise Unsupported("for loop")
